@@ -100,7 +100,7 @@ CLAIMED = {
              "are the cardinalities of the corresponding abstract sets; the expired count does not depend on how ties among "
              "equal expiry instants are broken. Model tied to the Rust code by whole-state comparison after every operation of "
              "generated histories under a virtual clock (the regression witness of the fixed upsert defect runs first); a python "
-             "oracle evaluates the prune/count clauses on the implementation's dumps alone. The numbers the real server reports through its metrics after a fixed history (forwarding mode, fake upstream) are compared with the expected expired / evicted / remaining counts.",
+             "oracle evaluates the prune/count clauses on the implementation's dumps alone. The numbers the real server reports through its metrics after a fixed history (forwarding mode, fake upstream) are compared with the expected expired / evicted / remaining counts. Several threads: a small-step model of any number of threads around one mutex (Base/Locks.v, every event list is a schedule) instantiated with the cache model (Cache/CacheConcurrent.v): after EVERY schedule the invariant holds and the record count is the number of distinct entries (C15_concurrent_invariant), the state is that of ONE sequential history of the executed calls in lock order with each thread handed its call's result (C15_concurrent_is_history), and two threads are never inside a body together; that every SharedCache method is one critical section is read from cache.rs on every run.",
         note="NOT proved: anything about threads. Thread schedules and std::sync::Mutex are outside the model; that each "
              "SharedCache method is one critical section is read off the source, and the thorough tier hammers one cache from "
              "2..8 threads and checks the invariant on the quiescent dump (a test, not a proof). Which of two names with EQUAL "
@@ -550,10 +550,10 @@ CLAIMED = {
              "histories through the real load_zone_configuration, and runs of the REAL resolved binary (release build, "
              "authoritative-only, -Z/-A directories) with edit sequences, SIGUSR1, the 'done - success/failure' log line, and UDP "
              "queries before, during (a thread querying continuously) and after every reload, compared with the model's state "
-             "machine; version-stamped records and alias chains across files make a mixed reply match neither configuration. An overlapping-reload scenario (two edits + SIGUSR1, the second during the first reload of a 250 000-line hosts file) checks that the last edit wins. The same state machine over TEXT file systems (C19_reload_text_all_or_nothing, C19_text_query_sees_one_config): the previous state stays exactly when a directory cannot be listed, a file cannot be read or a parser (the C11/C14 models) returns an error on a file's text; otherwise the state is the complete load of those texts.",
-        note="That tokio's RwLock serialises the writer against in-flight readers (the atomicity of the swap under real scheduling) "
-             "is outside the model: reloads and queries are atomic steps of the model by construction; it is observed on the real "
-             "binary only (replies during a reload are exactly old or exactly new, never old after new). load is C12's model.",
+             "machine; version-stamped records and alias chains across files make a mixed reply match neither configuration. An overlapping-reload scenario (two edits + SIGUSR1, the second during the first reload of a 250 000-line hosts file) checks that the last edit wins. The same state machine over TEXT file systems (C19_reload_text_all_or_nothing, C19_text_query_sees_one_config): the previous state stays exactly when a directory cannot be listed, a file cannot be read or a parser (the C11/C14 models) returns an error on a file's text; otherwise the state is the complete load of those texts. Concurrent tasks (Base/Locks.v, Config/ConfigConcurrent.v): reload_task and the request handlers around a reader-writer lock, the handler holding the read guard over arbitrarily many reads of the configuration with steps of other tasks in between, the reload loading outside the lock and taking the write lock only to store a complete value; for EVERY schedule each reply is query v q for ONE configuration v that is the initial one or the complete load of one delivered SIGUSR1 (C19_concurrent_query_sees_one_config), every configuration ever in force has that origin, a failed load is a no-op for the whole system, writer and readers exclude each other; that main.rs has critical sections of this shape (one read().await bound before resolve(...) and never dropped early; load first, then one write().await storing the loaded value; no try_*/blocking_* variants, no other site) is read from the source on every run (Base/TablesOk.zones_lock_sections_ok).",
+        note="That tokio's RwLock provides the exclusion the lock model assumes, signal delivery and liveness (the server keeps "
+             "answering) are outside the theorems; they are observed on the real binary (replies during a reload are exactly old "
+             "or exactly new, never old after new; overlapping reloads). load is C12's model.",
         design="5/C19", technique="Coq proof over executable model + model/impl correspondence (extraction) + real-binary runs"),
     "C09": dict(
         text="Theorems about the Gallina model of main.rs (triage, resolve_and_build_response, handle_raw_message, the reply paths of "
